@@ -271,4 +271,35 @@ example :
     domLookup asciiStr t [101, 120, 46, 99, 111, 109] = none ∧
     domLookup asciiStr t [46, 101, 120, 46, 99, 111, 109] = none := by decide
 
+/-- `*.Ex.com` (1), `API.ex.COM` (9), `*.ex.com` (0) -/
+private def tD : DTable :=
+  (run (domCfg asciiStr) 1 [.add (dent [42, 46, 69, 120, 46, 99, 111, 109] 2 1),
+    .add (dent [65, 80, 73, 46, 101, 120, 46, 67, 79, 77] 3 9),
+    .add (dent [42, 46, 101, 120, 46, 99, 111, 109] 4 0)]).tab
+
+/-- hypotheses of `C09_domain_correct` / `C09_domain_none_iff`: a well-formed table with an exact
+    and a wildcard slice -/
+example : WF (domCfg asciiStr) 1 tD ∧ (routes tD).length = 3 ∧ tD.length = 2 :=
+  ⟨C09_inv_domain asciiStr 1 _, by decide, by decide⟩
+
+/-- hypotheses of `C09_exact_first`: a stored exact route that applies to `api.EX.com` -/
+example : ∃ e ∈ routes tD, e.pay.isWild = false ∧
+    Matches asciiStr e.pay [97, 112, 105, 46, 69, 88, 46, 99, 111, 109] :=
+  ⟨dent [65, 80, 73, 46, 101, 120, 46, 67, 79, 77] 3 9, by decide, by decide,
+    (matchesB_iff _ _ _).mp (by decide)⟩
+
+/-- hypotheses of `C09_wildcard_one_label`: `www.ex.com` is answered by a wildcard route -/
+example : ∃ r, domLookup asciiStr tD [119, 119, 119, 46, 101, 120, 46, 99, 111, 109] = some r ∧
+    r.pay.isWild = true :=
+  ⟨dent [42, 46, 101, 120, 46, 99, 111, 109] 4 0, by decide, by decide⟩
+
+/-- hypotheses of `C09_forward_correct` / `C09_agent_correct`: well-formed tables with two routes
+    under one key, the cheaper one answered -/
+example :
+    let tF := (run fwdCfg 1 [.add ⟨⟨[119], [104]⟩, 2, 2, 5, 1, [2], 0⟩, .add ⟨⟨[119], [104]⟩, 3, 3, 4, 1, [3], 0⟩]).tab
+    let tA := (run agCfg 1 [.add ⟨7, 2, 7, 3, 1, [2, 7], 0⟩, .add ⟨7, 3, 7, 2, 1, [3, 7], 0⟩]).tab
+    WF fwdCfg 1 tF ∧ WF agCfg 1 tA ∧ (fwdLookup tF [119]).map (·.metric) = some 4 ∧
+    (agLookup tA 7).map (·.nextHop) = some 3 :=
+  ⟨C09_inv_forward 1 _, C09_inv_agent 1 _, by decide, by decide⟩
+
 end MM.C09
